@@ -63,7 +63,7 @@ def render(rng, contents, cell=24, grid=None, elong=True):
                 if g == 0:
                     dx = dy = 0.0
                 else:
-                    r = rng.uniform(1.6, 3.6) * s0
+                    r = rng.uniform(1.8, 4.0) * s0
                     a = rng.uniform(0, 2 * np.pi)
                     dx, dy = r * np.cos(a), r * np.sin(a)
                 q = rng.uniform(0.6, 1.0) if elong else 1.0
@@ -145,7 +145,7 @@ def make_scene(rng, cls):
 
     if cls == 'nmarkers':
         # one large envelope with many local peaks (> 200 markers for exponential/sinh)
-        n = int(rng.integers(64, 90))
+        n = int(rng.integers(56, 78))
         yy, xx = np.mgrid[:n, :n].astype(float)
         env = _gauss(xx, yy, n / 2, n / 2, n / 4.0, n / 4.5, 0.3, 20.0)
         img = env * (1.0 + 0.6 * rng.random((n, n)))
@@ -233,7 +233,7 @@ def make_scene(rng, cls):
         kw['npixels'] = 1
         kw['mode'] = str(rng.choice(['exponential', 'sinh']))
         kw['nlevels'] = int(rng.choice([16, 32, 64]))
-        kw['contrast'] = float(rng.choice([0.0, 1e-3, 0.05]))
+        kw['contrast'] = float(rng.choice([0.0, 1e-3, 0.05], p=[0.6, 0.32, 0.08]))
     elif cls == 'tiny':
         kw['npixels'] = int(rng.integers(1, 16))
     elif cls == 'subset':
